@@ -14,7 +14,11 @@ Inductive ophase :=
 | PQueued     (* scheduler.spawn done: coroutine pending *)
 | PRunning    (* worker task started; an event is being indexed *)
 | PWaiting    (* indexed, own toggle dropped, at operator_indexed.wait_for(True) *)
-| PPassed.    (* process_resource_causes reached: handlers, daemons, timers may start *)
+| PPassed     (* process_resource_causes reached: handlers, daemons, timers may start *)
+| PFailed     (* index_resource raised while the object's first event was processed (e.g. a when= callback of an
+                 @kopf.index handler): the error throttler swallowed it, the own toggle was NOT dropped, the worker idles *)
+| PLeaked.    (* ... and that worker exited on its idle timeout: nobody holds the toggle any more; a later event of the
+                 same object starts a new stream with a new toggle (numbered as a new object by the harness) *)
 
 Record orec := mkO {
   ph : ophase;
@@ -68,7 +72,8 @@ Inductive label :=
 | Start (o : nat)                   (* scheduler: pending coroutine becomes a running task *)
 | Indexed (o : nat)                 (* processor: index_resource done, drop_toggle(own) *)
 | Pass (o : nat)                    (* processor: wait_for(True) returned -> process_resource_causes *)
-| Retire (o : nat).                 (* worker: idle, exits; the stream is deleted *)
+| Retire (o : nat)                  (* worker: idle, exits; the stream is deleted *)
+| IndexRaised (o : nat).            (* processor: index_resource raised during the worker's first event; toggle kept *)
 
 Definition remove_nat (x : nat) (l : list nat) : list nat := filter (fun y => negb (Nat.eqb y x)) l.
 Definition mem_nat (x : nat) (l : list nat) : bool := existsb (Nat.eqb x) l.
@@ -76,7 +81,7 @@ Definition mem_nat (x : nat) (l : list nat) : bool := existsb (Nat.eqb x) l.
 Definition phase_eqb (a b : ophase) : bool :=
   match a, b with
   | PNew, PNew | PChecked, PChecked | PToggled, PToggled | PQueued, PQueued
-  | PRunning, PRunning | PWaiting, PWaiting | PPassed, PPassed => true
+  | PRunning, PRunning | PWaiting, PWaiting | PPassed, PPassed | PFailed, PFailed | PLeaked, PLeaked => true
   | _, _ => false
   end.
 
@@ -155,7 +160,7 @@ Definition step0 (lim : option nat) (s : gst) (l : label) : option gst :=
       end
   | Indexed o =>
       let x := ost s o in
-      if phase_eqb (ph x) PRunning || phase_eqb (ph x) PPassed
+      if phase_eqb (ph x) PRunning || phase_eqb (ph x) PPassed || phase_eqb (ph x) PFailed
       then let s' := set_o s o (mkO PWaiting (kind x) (mk x) (gated x) (early x)) in
            Some (mkG (blocker s') (nblock s') (rtog s') (remove_nat o (otog s')) (wst s') (ost s') (pend s') (nrun s') (nseen s')
                      (listed s') (kinds s') (opened s'))
@@ -173,6 +178,16 @@ Definition step0 (lim : option nat) (s : gst) (l : label) : option gst :=
            Some (mkG (blocker s') (nblock s') (rtog s') (otog s') (wst s') (ost s') (pend s')
                      (upd (nrun s') r (pred (nrun s' r))) (upd (nseen s') r (pred (nseen s' r)))
                      (listed s') (kinds s') (opened s'))
+      else if phase_eqb (ph x) PFailed && Nat.ltb 0 (nrun s r)
+      then let s' := set_o s o (mkO PLeaked (kind x) (mk x) (gated x) (early x)) in      (* the toggle stays in the set *)
+           Some (mkG (blocker s') (nblock s') (rtog s') (otog s') (wst s') (ost s') (pend s')
+                     (upd (nrun s') r (pred (nrun s' r))) (upd (nseen s') r (pred (nseen s' r)))
+                     (listed s') (kinds s') (opened s'))
+      else None
+  | IndexRaised o =>
+      let x := ost s o in
+      if phase_eqb (ph x) PRunning || phase_eqb (ph x) PFailed
+      then Some (set_o s o (mkO PFailed (kind x) (mk x) (gated x) (early x)))
       else None
   end.
 
@@ -194,7 +209,7 @@ Definition progress_label (l : label) : bool :=
 
 (* "every indexed kind made so far has been listed, every object first seen before that has been indexed" *)
 Definition pending_phase (p : ophase) : bool :=
-  match p with PChecked | PToggled | PQueued | PRunning => true | _ => false end.
+  match p with PChecked | PToggled | PQueued | PRunning | PFailed | PLeaked => true | _ => false end.
 Definition Ready (s : gst) : Prop :=
   blocker s = false /\
   (forall r, won (wst s r) = true -> windexed (wst s r) = true -> listed s r = true) /\
@@ -218,6 +233,8 @@ Definition measure (s : gst) : nat :=
   (if blocker s then 1 else 0) + List.length (rtog s) + List.length (otog s) + sum_pend s.
 Definition quiescent (s : gst) : Prop :=
   forall o, ph (ost s o) <> PChecked /\ ph (ost s o) <> PToggled.     (* no watcher is in the middle of a first event *)
+Definition unfailed (s : gst) : Prop :=
+  forall o, ph (ost s o) <> PFailed /\ ph (ost s o) <> PLeaked.      (* no index_resource call has raised *)
 Definition limit_ok (lim : option nat) (s : gst) : Prop :=
   match lim with None => True | Some n => forall r, nseen s r <= n end.
 
